@@ -34,16 +34,15 @@ class ParseTree:
         start = []
         for i, son in enumerate(self.sons):
             end = [x.value for x in self.sons[i + 1:]]
-            derivation = []
             derivations = son.get_leftmost_derivation()
+            # What the son finally derives: its own value for a terminal,
+            # nothing for a variable rewritten to epsilon
+            son_result = derivations[-1]
             if i != 0 and derivations and derivations[0]:
                 del derivations[0]
             for derivation in derivations:
                 res.append(start + derivation + end)
-            if derivation:
-                start = start + derivation
-            else:
-                start.append(son.value)
+            start = start + son_result
         return res
 
     def get_rightmost_derivation(self):
@@ -64,13 +63,15 @@ class ParseTree:
         end = []
         for i, son in enumerate(self.sons[::-1]):
             start = [x.value for x in self.sons[:-1 - i]]
-            derivation = []
             derivations = son.get_rightmost_derivation()
+            # What the son finally derives: its own value for a terminal,
+            # nothing for a variable rewritten to epsilon
+            son_result = derivations[-1]
             if i != 0 and derivations and derivations[0]:
                 del derivations[0]
             for derivation in derivations:
                 res.append(start + derivation + end)
-            end = derivation + end
+            end = son_result + end
         return res
 
     def to_networkx(self):
